@@ -458,7 +458,7 @@ def run(ctx):
                     ctx.violation('nested-bytes-unaligned', 'nested_flatbuffer field given as the bytes of a valid buffer (byte array / base64): parse succeeded, but the ubyte vector is only 4-byte aligned and the verifier rejects the nested buffer with %d' % vrc, replay)
                 elif re.search(rb'nest(_s|64)?"?\s*:\s*[\["]', text):
                     ctx.violation('nested-bytes-unverified', 'nested_flatbuffer field given as raw bytes that are not a valid buffer: parse succeeded, verifier rejects the result with %d' % vrc, replay)
-                elif re.search(rb'anys"?\s*:', text) and not klass.startswith('valid'):
+                elif re.search(rb'anys"?\s*:', text) and not klass.startswith('valid') and vrc == 13 and text.count(b'[') > text.count(b']'):
                     ctx.violation('union-vector-unbalanced-accepted', 'input ending inside a union vector is reported as success; the offset vector is left open and the verifier rejects the result with %d' % vrc, replay)
                 elif klass.startswith('deep-known'):
                     ctx.violation('deep-known-nesting-verify-reject', 'parse of %s succeeded but the generated verifier rejects the finished buffer with %d (nesting of a known recursive field deeper than the verifier accepts)' % (root, vrc), replay)
